@@ -418,8 +418,11 @@ func NewSimpleDB(basePath string, extraOptions ...ExtraOption) (*DB, error) {
 	mStore := memstore.NewMemStore()
 	rwLock := &sync.RWMutex{}
 	flusherChan := make(chan memStoreFlushAction)
-	doneFlushChan := make(chan bool)
-	doneCompactionChan := make(chan bool)
+	// both are buffered: the flusher and the compactor announce their end in a deferred send, which must not block a
+	// goroutine that is on its way out with log.Panicf (an unbuffered send, only received by Close, kept the process alive
+	// with a dead flusher or compactor)
+	doneFlushChan := make(chan bool, 1)
+	doneCompactionChan := make(chan bool, 1)
 	compactionTimerStopChannel := make(chan interface{}, 1)
 
 	sstableManager := NewSSTableManager(cmp, rwLock, basePath)
